@@ -302,7 +302,7 @@ impl Property for C06 {
     fn runs(&self, tier: Tier) -> u64 {
         match tier {
             Tier::Quick => 50_000,
-            Tier::Thorough => 3_000_000,
+            Tier::Thorough => 12_000_000,
         }
     }
 
